@@ -143,19 +143,28 @@ theorem four_le_srcInd (lnF cubeF : Nat → Nat) (d : Env P) (dsize : Nat) (u : 
   generalize (if dsize > 8 then _ else _) = y
   split <;> omega
 
+/-- the validation strategy installed in the search object (`search::vs_`): the library's three
+    (`src_search::validation_strategy(validator_id)`) or any user-defined one -/
+inductive VsKind | asIs | holdout | dss | other
+deriving Repr, DecidableEq
+
 /-- `src_search<T,ES>::tune_parameters`; `dsize` = `training_data().size()`,
     `lnF dsize` = `static_cast<unsigned>(std::log(dsize))`,
     `cubeF dsize` = `static_cast<unsigned>(std::pow(std::log2(dsize), 3))`.
     The computed population is raised to the user's `min_individuals` / `tournament_size` and a
     default tournament is cut down to it.
-    (The two `typeid(this->vs_.get()) == typeid(…)` tests compare a pointer type with a class
-    type and are always false: `dss` / `validation_percentage` are never touched.) -/
-def tuneSrc (lnF cubeF : Nat → Nat) (d : Env P) (term0 dsize : Nat) (u : Env P) : Env P :=
+    An open `dss` / `validation_percentage` takes its default when the DSS / hold-out strategy is the
+    installed one (`typeid(*vs_) == typeid(dss)` / `typeid(holdout_validation)`: the dynamic type of
+    the strategy object – fix 237a8f6; before, the type of the POINTER was compared and the two
+    parameters were never filled). -/
+def tuneSrc (vs : VsKind) (lnF cubeF : Nat → Nat) (d : Env P) (term0 dsize : Nat) (u : Env P) : Env P :=
   let e := tuneBase d term0 u
   let ind := if u.individuals = 0 then max (srcInd lnF cubeF d dsize u) (max u.minIndividuals u.tournament)
              else e.individuals
   let tour := if u.individuals = 0 ∧ u.tournament = 0 then min e.tournament ind else e.tournament
-  { e with layers := srcLayers lnF d dsize u, individuals := ind, tournament := tour }
+  { e with layers := srcLayers lnF d dsize u, individuals := ind, tournament := tour
+           dss := if u.dss.isNone ∧ vs = .dss then d.dss else u.dss
+           validation := if u.validation.isNone ∧ vs = .holdout then d.validation else u.validation }
 
 /-- `basic_ga_search<T,ES,F>::tune_parameters` (the minimum of 10 is capped by the population
     size: fix a334a4f) -/
@@ -216,9 +225,9 @@ theorem tuneGa_defined (d : Env P) (hd : Defined d) (hcode : 2 ≤ d.codeLength)
   simp only [tuneGa]
   split <;> omega
 
-theorem tuneSrc_defined (lnF cubeF : Nat → Nat) (hln : ∀ n, 8 < n → lnF n ≠ 0) (d : Env P)
+theorem tuneSrc_defined (vs : VsKind) (lnF cubeF : Nat → Nat) (hln : ∀ n, 8 < n → lnF n ≠ 0) (d : Env P)
     (hd : Defined d) (hcode : 2 ≤ d.codeLength) (term0 dsize : Nat) (u : Env P) (hu : u.codeLength ≠ 1) :
-    Defined (tuneSrc lnF cubeF d term0 dsize u) := by
+    Defined (tuneSrc vs lnF cubeF d term0 dsize u) := by
   have h := tuneBase_defined d hd hcode term0 u hu
   have h4 := four_le_srcInd lnF cubeF d dsize u
   obtain ⟨h1, h2, h3, h4', h5, h6, h7, h8, h9, h10, h11, h12, h13⟩ := h
@@ -244,7 +253,9 @@ theorem tuneSrc_defined (lnF cubeF : Nat → Nat) (hln : ∀ n, 8 < n → lnF n 
 
 /-- `e` keeps every setting of `u` that was defined; `floorMin` is the strategy-imposed minimum
     on `min_individuals` (0 = none, 10 for GA/DE; a smaller user value is raised to it, but never
-    above the population size); parameters outside the tuning are untouched -/
+    above the population size); a user-set `dss` / `validation_percentage` is kept (an open one is
+    filled by `src_search` when the corresponding strategy is installed: `tuneSrc_validator`);
+    parameters outside the tuning are untouched -/
 def Keeps (floorMin : Nat) (u e : Env P) : Prop :=
   (u.codeLength ≠ 0 → e.codeLength = u.codeLength) ∧
   (u.patchLength ≠ 0 → e.patchLength = u.patchLength) ∧
@@ -260,22 +271,39 @@ def Keeps (floorMin : Nat) (u e : Env P) : Prop :=
   (u.mateZone ≠ 0 → e.mateZone = u.mateZone) ∧
   (u.generations ≠ 0 → e.generations = u.generations) ∧
   (u.maxStuck.isSome = true → e.maxStuck = u.maxStuck) ∧
-  e.dss = u.dss ∧ e.validation = u.validation ∧ e.ageGap = u.ageGap ∧
-  e.pSameLayer = u.pSameLayer ∧ e.teamInd = u.teamInd
+  (u.dss.isSome = true → e.dss = u.dss) ∧ (u.validation.isSome = true → e.validation = u.validation) ∧
+  e.ageGap = u.ageGap ∧ e.pSameLayer = u.pSameLayer ∧ e.teamInd = u.teamInd
 
 theorem tuneBase_keeps (d : Env P) (term0 : Nat) (u : Env P) : Keeps 0 u (tuneBase d term0 u) := by
   unfold Keeps tuneBase
-  refine ⟨?_, ?_, ?_, ?_, ?_, ?_, ?_, ?_, ?_, ?_, ?_, ?_, ?_, rfl, rfl, rfl, rfl, rfl⟩ <;>
+  refine ⟨?_, ?_, ?_, ?_, ?_, ?_, ?_, ?_, ?_, ?_, ?_, ?_, ?_, fun _ => rfl, fun _ => rfl, rfl, rfl, rfl⟩ <;>
     intro h <;> first | (cases hm : u.maxStuck <;> simp_all; done) | simp_all
 
-theorem tuneSrc_keeps (lnF cubeF : Nat → Nat) (d : Env P) (term0 dsize : Nat) (u : Env P) :
-    Keeps 0 u (tuneSrc lnF cubeF d term0 dsize u) := by
+theorem tuneSrc_keeps (vs : VsKind) (lnF cubeF : Nat → Nat) (d : Env P) (term0 dsize : Nat) (u : Env P) :
+    Keeps 0 u (tuneSrc vs lnF cubeF d term0 dsize u) := by
   have h := tuneBase_keeps d term0 u
   obtain ⟨h1, h2, h3, h4, h5, h6, h7, h8, h9, h10, h11, h12, h13, h14, h15, h16, h17, h18⟩ := h
-  refine ⟨h1, h2, h3, h4, h5, h6, ?_, ?_, h9, ?_, h11, h12, h13, h14, h15, h16, h17, h18⟩
+  refine ⟨h1, h2, h3, h4, h5, h6, ?_, ?_, h9, ?_, h11, h12, h13, ?_, ?_, h16, h17, h18⟩
   · intro h; simp only [tuneSrc, srcLayers, h, if_false]
   · intro h; simp only [tuneSrc, h, if_false]; exact h8 h
   · intro h; simp only [tuneSrc, h, and_false, if_false]; exact h10 h
+  · intro h; cases hd : u.dss <;> simp_all [tuneSrc]
+  · intro h; cases hd : u.validation <;> simp_all [tuneSrc]
+
+/-- what `src_search::tune_parameters` does to the two validator parameters, exactly: an open `dss`
+    becomes the default iff the DSS strategy is installed, an open `validation_percentage` iff the
+    hold-out strategy is; everything else (set by the user, or another strategy installed) is kept;
+    hence with the strategy installed the parameter it reads is defined afterwards -/
+theorem tuneSrc_validator (vs : VsKind) (lnF cubeF : Nat → Nat) (d : Env P) (term0 dsize : Nat) (u : Env P) :
+    (tuneSrc vs lnF cubeF d term0 dsize u).dss = (if u.dss.isNone ∧ vs = .dss then d.dss else u.dss) ∧
+    (tuneSrc vs lnF cubeF d term0 dsize u).validation =
+      (if u.validation.isNone ∧ vs = .holdout then d.validation else u.validation) ∧
+    (vs = .dss → d.dss.isSome = true → (tuneSrc vs lnF cubeF d term0 dsize u).dss.isSome = true) ∧
+    (vs = .holdout → d.validation.isSome = true →
+      (tuneSrc vs lnF cubeF d term0 dsize u).validation.isSome = true) := by
+  refine ⟨rfl, rfl, ?_, ?_⟩
+  · intro hv hd; cases h : u.dss <;> simp_all [tuneSrc]
+  · intro hv hd; cases h : u.validation <;> simp_all [tuneSrc]
 
 theorem tuneGa_keeps (d : Env P) (term0 : Nat) (u : Env P) : Keeps 10 u (tuneGa d term0 u) := by
   have h := tuneBase_keeps d term0 u
@@ -314,8 +342,8 @@ theorem tuneBase_cross (L term0 : Nat) (u : Env P) (hs : Single u) (hc : Cross u
   unfold Cross tuneBase Env.dflt
   refine ⟨?_, ?_, ?_, ?_⟩ <;> simp only <;> intro _ _ <;> (repeat' split) <;> omega
 
-theorem tuneSrc_cross (lnF cubeF : Nat → Nat) (L term0 dsize : Nat) (u : Env P) (hs : Single u)
-    (hc : Cross u) : Cross (tuneSrc lnF cubeF (Env.dflt L : Env P) term0 dsize u) := by
+theorem tuneSrc_cross (vs : VsKind) (lnF cubeF : Nat → Nat) (L term0 dsize : Nat) (u : Env P) (hs : Single u)
+    (hc : Cross u) : Cross (tuneSrc vs lnF cubeF (Env.dflt L : Env P) term0 dsize u) := by
   obtain ⟨c1, c2, c3, c4⟩ := hc
   have h1 := hs.1
   have h4 := four_le_srcInd lnF cubeF (Env.dflt L : Env P) dsize u
@@ -339,13 +367,29 @@ theorem tuneBase_valid (laws : ProbLaws P) (L : Nat) (hL : L ≠ 0) (term0 : Nat
   exact ⟨fun _ => ⟨tuneBase_defined _ (dflt_defined laws L hL) (by simp [Env.dflt]) _ _ hv.2.1.1, hu⟩,
          tuneBase_single laws L term0 u hv.2.1 hpop, tuneBase_cross L term0 u hv.2.1 hv.2.2⟩
 
-theorem tuneSrc_valid (laws : ProbLaws P) (lnF cubeF : Nat → Nat) (hln : ∀ n, 8 < n → lnF n ≠ 0)
+/-- the defaults of the two validator parameters pass their range checks (`dss = 1 ≠ 0`,
+    `validation_percentage = 20 < 100`) -/
+theorem tuneSrc_single (laws : ProbLaws P) (vs : VsKind) (lnF cubeF : Nat → Nat) (L term0 dsize : Nat) (u : Env P)
+    (h : Single u) (hpop : u.individuals ≠ 1) : Single (tuneSrc vs lnF cubeF (Env.dflt L) term0 dsize u) := by
+  obtain ⟨h1, h2, h3, h4, h5, h6, h7⟩ := tuneBase_single laws L term0 u h hpop
+  refine ⟨h1, h2, h3, ?_, ?_, h6, h7⟩
+  · intro v hv
+    simp only [tuneSrc] at hv
+    split at hv
+    · simp only [Env.dflt, Option.some.injEq] at hv; omega
+    · exact h.2.2.2.1 v hv
+  · simp only [tuneSrc]
+    split
+    · simp [Env.dflt]
+    · exact h.2.2.2.2.1
+
+theorem tuneSrc_valid (laws : ProbLaws P) (vs : VsKind) (lnF cubeF : Nat → Nat) (hln : ∀ n, 8 < n → lnF n ≠ 0)
     (L : Nat) (hL : L ≠ 0) (term0 dsize : Nat) (u : Env P)
     (hv : isValid false u = true) (hu : Untuned u) (hpop : u.individuals ≠ 1) :
-    isValid true (tuneSrc lnF cubeF (Env.dflt L) term0 dsize u) = true := by
+    isValid true (tuneSrc vs lnF cubeF (Env.dflt L) term0 dsize u) = true := by
   rw [isValid_iff] at hv ⊢
-  exact ⟨fun _ => ⟨tuneSrc_defined lnF cubeF hln _ (dflt_defined laws L hL) (by simp [Env.dflt]) _ _ _ hv.2.1.1, hu⟩,
-         tuneBase_single laws L term0 u hv.2.1 hpop, tuneSrc_cross lnF cubeF L term0 dsize u hv.2.1 hv.2.2⟩
+  exact ⟨fun _ => ⟨tuneSrc_defined vs lnF cubeF hln _ (dflt_defined laws L hL) (by simp [Env.dflt]) _ _ _ hv.2.1.1, hu⟩,
+         tuneSrc_single laws vs lnF cubeF L term0 dsize u hv.2.1 hpop, tuneSrc_cross vs lnF cubeF L term0 dsize u hv.2.1 hv.2.2⟩
 
 theorem tuneGa_valid (laws : ProbLaws P) (L : Nat) (hL : L ≠ 0) (term0 : Nat) (u : Env P)
     (hv : isValid false u = true) (hu : Untuned u) (hpop : u.individuals ≠ 1) :
@@ -366,14 +410,15 @@ end
 section
 variable {P : Type} [ProbOps P]
 
-inductive SearchKind | base | src | ga
+/-- the three search classes; `src_search` with the validation strategy installed in it -/
+inductive SearchKind | base | src (vs : VsKind) | ga
 deriving Repr, DecidableEq
 
 /-- the three `tune_parameters` -/
 def tune (kind : SearchKind) (lnF cubeF : Nat → Nat) (esLayers term0 dsize : Nat) (u : Env P) : Env P :=
   match kind with
   | .base => tuneBase (Env.dflt esLayers) term0 u
-  | .src  => tuneSrc lnF cubeF (Env.dflt esLayers) term0 dsize u
+  | .src vs => tuneSrc vs lnF cubeF (Env.dflt esLayers) term0 dsize u
   | .ga   => tuneGa (Env.dflt esLayers) term0 u
 
 def strategyFloor : SearchKind → Nat
@@ -410,9 +455,9 @@ def modelTunedBase : List String :=
    "max_stuck_time", "mep.code_length", "mep.patch_length", "min_individuals", "p_cross", "p_mutation",
    "tournament_size"]
 
-/-- assigned by `src_search::tune_parameters` beyond the base call (`dss` and
-    `validation_percentage` sit behind the always-false `typeid` tests; a default `tournament_size`
-    is cut down to the computed population) -/
+/-- assigned by `src_search::tune_parameters` beyond the base call (`dss` / `validation_percentage`
+    when the DSS / hold-out strategy is installed; a default `tournament_size` is cut down to the
+    computed population) -/
 def modelTunedSrc : List String := ["dss", "individuals", "layers", "tournament_size", "validation_percentage"]
 
 /-- assigned by `basic_ga_search::tune_parameters` beyond the base call -/
